@@ -10,8 +10,9 @@ debug assertions; a panic is a violation).  Proved here, for all inputs:
 * at most one handler invocation per request, and only through an arm of the dispatch table;
 * every slice the memory-table arm reads lies inside the received body (`reads_within_message`);
 * (C07) gated requests do not reach the handler — see `Props.C07`.
-The statement `handler_args_valid` (every handler invocation satisfies `Spec.Proto.validCall`) is checked
-on every observed call by the spec driver; its proof over the model is in `Props.C05Args` (in progress).
+The central statement `handler_args_valid` (every handler invocation satisfies `Spec.Proto.validCall`, for every
+state, header, body, descriptor list, stream, chooser and history) is proved in `Props.C05Args`; the spec driver
+additionally checks it on every call the real server is observed to make.
 -/
 namespace Props.C05
 open Base Model.Stream Model.BackendSrv Lemmas.BackendSrv
